@@ -31,17 +31,31 @@ inductive Kind
 
 abbrev Text := Nat
 
-/-- A wrapper position walked by the loader: `id` names the Go object, `ref` its `$ref` text,
-    `empty` = `isEmpty()` (nil wrapper, or neither `$ref` nor value), `kids` the wrapper positions below
-    its value in the loader's order. -/
+/-- A wrapper position walked by the loader: `id` names the Go object, `doc` the document it was decoded
+    from (`#…` texts are drilled in that document), `ref` its `$ref` text, `empty` = `isEmpty()` (nil
+    wrapper, or neither `$ref` nor value), `kids` the wrapper positions below its value in the loader's order. -/
 inductive Node where
-  | mk (id : Nat) (kind : Kind) (ref : Option Text) (empty : Bool) (kids : List Node)
+  | mk (id : Nat) (doc : Nat) (kind : Kind) (ref : Option Text) (empty : Bool) (kids : List Node)
 
-def Node.id : Node → Nat | .mk i _ _ _ _ => i
-def Node.kind : Node → Kind | .mk _ k _ _ _ => k
-def Node.ref : Node → Option Text | .mk _ _ r _ _ => r
-def Node.empty : Node → Bool | .mk _ _ _ e _ => e
-def Node.kids : Node → List Node | .mk _ _ _ _ ks => ks
+def Node.id : Node → Nat | .mk i _ _ _ _ _ => i
+def Node.doc : Node → Nat | .mk _ d _ _ _ _ => d
+def Node.kind : Node → Kind | .mk _ _ k _ _ _ => k
+def Node.ref : Node → Option Text | .mk _ _ _ r _ _ => r
+def Node.empty : Node → Bool | .mk _ _ _ _ e _ => e
+def Node.kids : Node → List Node | .mk _ _ _ _ _ ks => ks
+
+/-- `var resolved XRef; *resolved = *cursor`: a new Go object with the content of the target wrapper -/
+def Node.copyAs : Node → Nat → Node | .mk _ d k r e ks, i => .mk i d k r e ks
+/-- identity of the copy made while wrapper `a` resolves to wrapper `b` (odd; the driver numbers decoded wrappers evenly) -/
+def copyId (a b : Nat) : Nat := 2 * ((a + b) * (a + b + 1) / 2 + b) + 1
+
+mutual
+/-- number of wrapper positions in a node (independent of the identities) -/
+def Node.size : Node → Nat | .mk _ _ _ _ _ ks => 1 + sizes ks
+def sizes : List Node → Nat
+  | [] => 0
+  | k :: ks => k.size + sizes ks
+end
 
 /-- result of `resolveComponent`'s drill-down / `loadSingleElementFromURI` for a text, a wrapper of a kind expected -/
 inductive Tgt
@@ -73,7 +87,7 @@ inductive Res
 
 structure World where
   texts  : List Text                     -- the reference texts for which `target` is not an error
-  target : Text → Kind → Tgt
+  target : Nat → Text → Kind → Tgt       -- document the text is written in, text, kind of the resolver
 
 /-- children in order; the first result that is not `ok` ends the walk (every Go caller returns the error) -/
 def stepKids (f : Node → St → Res) : List Node → St → Res
@@ -117,7 +131,7 @@ def finishSingle (kind : Kind) (id : Nat) (t : Text) (r : Res) : Res :=
 
 def resolve (w : World) : Nat → Node → St → Res
   | 0, _, _ => .outOfFuel
-  | fuel + 1, .mk id kind ref empty kids, st =>
+  | fuel + 1, .mk id doc kind ref empty kids, st =>
     if empty && kind != .example then .errMust st
     else match ref with
       | none => stepKids (resolve w fuel) kids st
@@ -126,15 +140,18 @@ def resolve (w : World) : Nat → Node → St → Res
         else if st.inprog.contains t then .ok { st with pending := st.pending ++ [(t, kind, id)] }
         else
           let st1 := { st with inprog := st.inprog ++ [t] }
-          match w.target t kind with
+          match w.target doc t kind with
           | .err => .err
           | .nilPtr => .panic .typedNil
           | .drillPanic => .panic .drill
           | .single n' =>
             -- the element is decoded into the component itself; its children are walked by this call
             finishSingle kind id t (stepKids (resolve w fuel) n'.kids st1)
-          | .wrapper n' => finish n' kind id t (resolve w fuel n' st1)
-          | .raw n' => finish n' kind id t (resolve w fuel n' st1)
+          | .wrapper n' =>
+            -- the copy of an already resolved wrapper has its value: the chain call returns at once
+            if st1.value.contains n'.id then finishSingle kind id t (.ok st1)
+            else finish (n'.copyAs (copyId id n'.id)) kind id t (resolve w fuel (n'.copyAs (copyId id n'.id)) st1)
+          | .raw n' => finish (n'.copyAs (copyId id n'.id)) kind id t (resolve w fuel (n'.copyAs (copyId id n'.id)) st1)
 
 /-- `ResolveRefsIn`: the component maps in the code's order, then the path items -/
 def load (w : World) (fuel : Nat) (roots : List Node) : Res :=
@@ -145,7 +162,7 @@ def load (w : World) (fuel : Nat) (roots : List Node) : Res :=
 mutual
 /-- every reference node below `n` has the kind `κ` assigns to its text -/
 def kindOK (κ : Text → Kind) : Node → Bool
-  | .mk _ kind ref _ kids => (match ref with | none => true | some t => kind == κ t) && kindOKs κ kids
+  | .mk _ _ kind ref _ kids => (match ref with | none => true | some t => kind == κ t) && kindOKs κ kids
 def kindOKs (κ : Text → Kind) : List Node → Bool
   | [] => true
   | k :: ks => kindOK κ k && kindOKs κ ks
@@ -159,15 +176,15 @@ def Tgt.panics : Tgt → Bool
 
 /-- #12 excluded: one kind per reference text, in the roots and in everything a text can resolve to -/
 def KindConsistent (w : World) (κ : Text → Kind) (roots : List Node) : Prop :=
-  kindOKs κ roots = true ∧ ∀ t k n, (w.target t k).node? = some n → kindOK κ n = true
+  kindOKs κ roots = true ∧ ∀ d t k n, (w.target d t k).node? = some n → kindOK κ n = true
 
 /-- typed-nil targets and nil dereferences of the drill-down excluded -/
-def NoNilTarget (w : World) : Prop := ∀ t k, (w.target t k).panics = false
+def NoNilTarget (w : World) : Prop := ∀ d t k, (w.target d t k).panics = false
 
 /-- well-formedness used by the termination bound: `target` is an error outside `texts`,
     and every node a text resolves to has size at most `S` -/
 def Bounded (w : World) (S : Nat) : Prop :=
-  (∀ t k, t ∉ w.texts → w.target t k = .err) ∧ ∀ t k n, (w.target t k).node? = some n → sizeOf n ≤ S
+  (∀ d t k, t ∉ w.texts → w.target d t k = .err) ∧ ∀ d t k n, (w.target d t k).node? = some n → n.size ≤ S
 
 def fresh (w : World) (st : St) : Nat := (w.texts.filter (fun t => !st.inprog.contains t)).length
 
